@@ -28,7 +28,7 @@ def main(ctx):
     r = chainlib.model_run(ctx, "SyncStore.tla", "MC_SyncStore.cfg", workers=4)
     trace, stats, out = chainlib.run_histories(ctx, quick, extra_args=["-identity-heavy", "-reorgs"])
     if stats is None:
-        raise vlib.CheckError("driver failed:\n" + out[-3000:])
+        vlib.driver_failure(ctx, out)
     ok, info = chainlib.validate(ctx, trace, "Trace_Registry.tla", "Trace_Registry.cfg", MINE, "C11", describe)
     rows = vlib.read_ndjson(trace)
     fol = [x for x in rows if x.get("ev") == "Follower"]
